@@ -88,6 +88,7 @@ type txCall struct {
 
 type misuseIDs struct {
 	live, freed, end, huge uint64
+	beyond                 uint64 // allocated by a concurrently open write transaction: beyond a reader's snapshot
 }
 
 var txCalls = []txCall{
@@ -99,6 +100,7 @@ var txCalls = []txCall{
 	{"Page(end)", func(tx *txfile.Tx, i misuseIDs) error { _, err := tx.Page(txfile.PageID(i.end)); return err }},
 	{"Page(huge)", func(tx *txfile.Tx, i misuseIDs) error { _, err := tx.Page(txfile.PageID(i.huge)); return err }},
 	{"Page(freed)", func(tx *txfile.Tx, i misuseIDs) error { _, err := tx.Page(txfile.PageID(i.freed)); return err }},
+	{"Page(beyond-snapshot)", func(tx *txfile.Tx, i misuseIDs) error { _, err := tx.Page(txfile.PageID(i.beyond)); return err }},
 	{"RootPage", func(tx *txfile.Tx, _ misuseIDs) error { _, err := tx.RootPage(); return err }},
 	{"Flush", func(tx *txfile.Tx, _ misuseIDs) error { return tx.Flush() }},
 	{"CheckpointWAL", func(tx *txfile.Tx, _ misuseIDs) error { return tx.CheckpointWAL() }},
@@ -131,11 +133,11 @@ func txWant(state, call string) want {
 		default:
 			return wantFinished
 		}
-	case state == "readonly":
+	case state == "readonly" || state == "readonly+writer":
 		switch call {
 		case "Alloc", "AllocN(2)", "Flush", "CheckpointWAL":
 			return wantReadOnly
-		case "Page(0)", "Page(1)", "Page(end)", "Page(huge)":
+		case "Page(0)", "Page(1)", "Page(end)", "Page(huge)", "Page(beyond-snapshot)":
 			return wantErr
 		}
 		return wantAny
@@ -249,7 +251,7 @@ func handleMisuse(raw []byte) interface{} {
 		res.States = append(res.States, state)
 	}
 
-	txStates := []string{"active", "readonly", "committed", "rolledback", "closed", "failedcommit"}
+	txStates := []string{"active", "readonly", "readonly+writer", "committed", "rolledback", "closed", "failedcommit"}
 	pageStates := []string{"finished-tx", "readonly-tx", "freed", "flushed", "dirty", "new-empty", "clean"}
 
 	// runCase replays the prefix, prepares a receiver, calls every method once
@@ -297,10 +299,10 @@ func handleMisuse(raw []byte) interface{} {
 				} else {
 					c := txCalls[i]
 					name, w = c.name, txWant(state, c.name)
-					if c.name == "Page(freed)" && ids.freed == 0 || c.name == "Page(live)" && ids.live == 0 {
+					if c.name == "Page(freed)" && ids.freed == 0 || c.name == "Page(live)" && ids.live == 0 || c.name == "Page(beyond-snapshot)" && ids.beyond == 0 {
 						continue
 					}
-					if !isMisuse(w) && (c.name == "Commit" || c.name == "Rollback" || c.name == "Close" || c.name == "Alloc" || c.name == "AllocN(2)" || c.name == "Flush" || c.name == "CheckpointWAL") && (state == "active" || state == "readonly") {
+					if !isMisuse(w) && (c.name == "Commit" || c.name == "Rollback" || c.name == "Close" || c.name == "Alloc" || c.name == "AllocN(2)" || c.name == "Flush" || c.name == "CheckpointWAL") && (state == "active" || state == "readonly" || state == "readonly+writer") {
 						continue // valid use that changes the receiver: not part of the matrix
 					}
 					pn = pagedrv.Try(func() { err = c.fn(tx, ids) })
@@ -332,6 +334,9 @@ func handleMisuse(raw []byte) interface{} {
 			// the receiver is finished or discarded; the file must still hold the model state
 			if live {
 				pagedrv.Try(func() { tx.Close() })
+			}
+			if e.Tx != nil && e.Tx != tx { // the helper writer of "readonly+writer"
+				pagedrv.Try(func() { e.Tx.Rollback() })
 			}
 			e.Tx, e.T = nil, nil
 			if !e.VerifyAgainst(e.M, "after the misuse calls", "misuse/committed-state") {
@@ -381,11 +386,27 @@ func handleMisuse(raw []byte) interface{} {
 		runCase(st, func(e *pagedrv.Env) (*txfile.Tx, *txfile.Page, misuseIDs, bool) {
 			ids := mkIDs(e)
 			switch st {
-			case "readonly":
+			case "readonly", "readonly+writer":
 				tx, err := e.F.BeginReadonly()
 				if err != nil {
 					e.Dead = true
 					return nil, nil, ids, false
+				}
+				if st == "readonly+writer" {
+					// a write transaction that stays open and has allocated (and flushed) pages past the reader's snapshot
+					e.Apply(O{K: pagedrv.OBegin})
+					if !e.Dead {
+						before := e.F.VerifSnapshot().DataEnd
+						e.Apply(O{K: pagedrv.OAlloc, A: 3})
+						for _, id := range newIDs(e) {
+							e.WritePage(id, pagedrv.WFull)
+							if id >= before && ids.beyond == 0 {
+								ids.beyond = id
+							}
+						}
+						e.Apply(O{K: pagedrv.OFlushTx})
+						e.Viol = nil
+					}
 				}
 				return tx, nil, ids, true
 			}
